@@ -34,6 +34,15 @@ Proof. exact (conj outer_phase_inv
    (fun Hu => scatter_phase_inv N y (fun n d => u n * y n d) w w u d e Hu (fun _ _ _ => eq_refl) (fun _ _ => eq_refl))). Qed.
 Print Assumptions C04_outer_product_and_scatter_phase_inv.
 
+(* the covariance steps of the trainers built on the scatter: complex Gaussian, Watson / Bingham, cACG (any hermitize) *)
+Theorem C04_covariance_steps_phase_inv (N D : nat) (tiny : R) (y : nat -> nat -> C) (s q : nat -> R) (u : nat -> C) (herm : bool) (d e : nat) :
+  (forall n, (n < N)%nat -> Cmod (u n) = 1%R) ->
+  ccsg_cov RO N tiny (fun n d => u n * y n d) s d e = ccsg_cov RO N tiny y s d e /\
+  watson_cov RO N (fun n d => u n * y n d) s d e = watson_cov RO N y s d e /\
+  cacg_cov RO D N tiny herm (fun n d => u n * y n d) s q d e = cacg_cov RO D N tiny herm y s q d e.
+Proof. exact (cov_steps_phase_inv N D tiny y s q u herm d e). Qed.
+Print Assumptions C04_covariance_steps_phase_inv.
+
 Theorem C04_cacg_quadratic_form_and_log_pdf_phase_inv (D : nat) (tiny : R) (U : nat -> nat -> C) (lam : nat -> R) (u : C) (y : nat -> C) :
   Cmod u = 1%R ->
   cacg_quad RO D tiny U lam (fun d => u * y d) = cacg_quad RO D tiny U lam y /\
